@@ -60,6 +60,9 @@ type Case struct {
 	// hours to use up a tick budget. It must be far above anything a terminating run of the case can need on a loaded
 	// machine; the checker that sets it confirms such a hang against the real CLI.
 	WallLimit time.Duration
+	// Graph: the -g option (draw the automaton in the same run; `dot` is absent here, the DOT text is still produced
+	// and the generator carries on exactly as the CLI does)
+	Graph bool
 }
 
 type Obs struct {
@@ -90,7 +93,10 @@ func setFlags(c Case) {
 	utils.HttpDebug = c.Variant.Http
 	utils.ObjectMode = c.Variant.Object
 	utils.DebugPackTab = false
-	utils.GenDotGraph = false
+	utils.GenDotGraph = c.Graph
+	if c.Graph {
+		utils.GenDotPath = filepath.Join(ScratchDir, fmt.Sprintf("enga-%d.png", os.Getpid()))
+	}
 }
 
 type result struct {
@@ -266,6 +272,9 @@ wait:
 		if root, ok := o.W.VistorNode.(*parser.RootVistor); ok {
 			o.L = root.LALR1
 		}
+	}
+	if c.Graph {
+		os.Remove(utils.GenDotPath)
 	}
 	if c.Mode == "gen" {
 		if b, err := os.ReadFile(out); err == nil {
